@@ -589,7 +589,20 @@ func FuzzDecode(f *testing.F) {
 		f.Add(b.Bytes())
 	}
 	f.Fuzz(func(t *testing.T, data []byte) {
-		if len(data) > maxSize {
+		if len(data) > maxSize || len(data) < 2 {
+			return
+		}
+		// the harness parses the fixed header itself first: the reference decoder allocates whatever length is declared
+		// (a 5+ byte length run overflows it), and the property only speaks of packets within the size limit
+		rl, n, ok := 0, 0, false
+		for i := 1; i < len(data) && i <= 4; i++ {
+			rl |= int(data[i]&0x7f) << (7 * uint(i-1))
+			if data[i]&0x80 == 0 {
+				n, ok = i, true
+				break
+			}
+		}
+		if !ok || rl != len(data)-1-n {
 			return
 		}
 		rd := bytes.NewReader(data)
